@@ -329,6 +329,7 @@ DRIVERS = {
     "qdriver": dict(name="qdriver", extract_v="theories/Extract/ExtractQef.v", modname="qmodel"),
     "vdriver": dict(name="vdriver", extract_v="theories/Extract/ExtractHeightmap.v", modname="vmodel"),
     "pdriver": dict(name="pdriver", extract_v="theories/Extract/ExtractProgress.v", modname="pmodel"),
+    "cdriver": dict(name="cdriver", extract_v="theories/Extract/ExtractContours.v", modname="cmodel"),
 }
 
 
